@@ -718,6 +718,7 @@ def _parse_source_for_lambda(
     func_name = None
     start_token = None
     source, lambda_line = _get_sourcelines(ast_source)
+    first_line = lambda_line
     t_stream = None
     while func_name is None:
         # Setup the tokenizer
@@ -743,10 +744,13 @@ def _parse_source_for_lambda(
     else:
         # Grab all the lambdas on a single line
         lambdas_on_a_line = defaultdict(list)
+        lambda_starts_at = {}
         saw_new_line = False
         while not saw_new_line:
+            found_at = lambda_line + start_token.start[0] - 1
             lda, saw_new_line = _get_lambda_in_stream(t_stream, start_token)
             lambdas_on_a_line[func_name.string if func_name is not None else None].append(lda)
+            lambda_starts_at[id(lda)] = found_at
 
             if saw_new_line:
                 break
@@ -783,6 +787,17 @@ def _parse_source_for_lambda(
         if len(good_lambdas) == 0:
             raise ValueError(
                 f"Internal Error - Found no lambda in source with the arguments {caller_arg_list}"
+            )
+
+        # The lambda we were handed starts on `first_line`. If we had to back up to an earlier
+        # line to find the method name, a lambda found on that earlier line is a different one.
+        good_lambdas = [lda for lda in good_lambdas if lambda_starts_at[id(lda)] == first_line]
+        if len(good_lambdas) == 0:
+            raise ValueError(
+                "Unable to tell which lambda"
+                + ("" if caller_name is None else f" was passed to {caller_name}")
+                + " - put each call on its own line, with the lambda on the same line as the"
+                " method name."
             )
 
         if len(good_lambdas) > 1:
